@@ -66,7 +66,7 @@ struct HashWorld : World {
         Op op;
         int Uc = (int)cfg.get("U");
         if (mode == "threads") op.k = wpick(r, {{35, H_PUT}, {25, H_GET}, {25, H_REMOVE}, {5, H_CLEAR}, {10, H_LOCKEDWALK}});
-        else op.k = wpick(r, {{38, H_PUT}, {22, H_GET}, {22, H_REMOVE}, {2, H_CLEAR}, {5, H_SIZE}, {9, H_WALK}, {prop == "C14" ? 3 : 0, H_DEBUG}});
+        else op.k = wpick(r, {{38, H_PUT}, {22, H_GET}, {22, H_REMOVE}, {2, H_CLEAR}, {5, H_SIZE}, {9, H_WALK}, {prop == "C14" ? 3 : 0, H_DEBUG}, {prop == "C14" ? 6 : 0, H_LOCKEDWALK}});
         op.a = (int)r.below((uint32_t)Uc);
         switch (op.k) {
         case H_PUT: {
@@ -117,7 +117,7 @@ struct HashWorld : World {
     void sut_destroy(Ctx &) override { if (t) { InSut s; t->free(t); } t = nullptr; }
     void sut_abandon() override { t = nullptr; }
     void *sut_mutex() override { return t ? t->qmutex : nullptr; }
-    void sut_force_unlock() override { InSut s; t->unlock(t); }
+    void sut_force_unlock() override { InSutLock s; t->unlock(t); }
     void sut_probe(Ctx &) override { InSut s; t->get(t, "probe-key", nullptr, false); }
 
     // position of a key inside its collision chain (reads public struct fields): 0 head, 1 middle, 2 tail, 3 only
@@ -185,7 +185,7 @@ struct HashWorld : World {
         case H_SIZE: { size_t n; { InSut s; n = t->size(t); } return R_ok(num((long long)n)); }
         case H_WALK: case H_LOCKEDWALK: {
             bool newmem = op.d & 1;
-            if (op.k == H_LOCKEDWALK) { InSut s; t->lock(t); }
+            if (op.k == H_LOCKEDWALK) { InSutLock s; t->lock(t); }
             qhashtbl_obj_t o; memset(&o, 0, sizeof o);
             std::vector<Bytes> seen; bool failed = false;
             size_t guard = t->num * 2 + 8;
@@ -196,9 +196,9 @@ struct HashWorld : World {
                 enc(e, k); enc(e, v);
                 if (newmem) { x.hold(o.name, k + Bytes(1, '\0'), "hashtbl.getnext(newmem).name"); x.hold(o.data, v, "hashtbl.getnext(newmem).data"); }
                 seen.push_back(e);
-                if (seen.size() > guard) { if (op.k == H_LOCKEDWALK) { InSut s; t->unlock(t); } x.fail("walk-mismatch", "result", "walk does not end (more elements than keys)"); }
+                if (seen.size() > guard) { if (op.k == H_LOCKEDWALK) { InSutLock s; t->unlock(t); } x.fail("walk-mismatch", "result", "walk does not end (more elements than keys)"); }
             }
-            if (op.k == H_LOCKEDWALK) { InSut s; t->unlock(t); }
+            if (op.k == H_LOCKEDWALK) { InSutLock s; t->unlock(t); }
             std::sort(seen.begin(), seen.end());
             Bytes out; for (auto &e : seen) out += e;
             return failed ? R_fail(out) : R_ok(out + "$");
